@@ -846,6 +846,47 @@ def run(repo, rep, tier):
         rep.finding(r2, '_eq_dict/_hash_dict', norm(ev) + ' / ' + norm(hv),
                     'dict-normalisation', UTL, ed.node.lineno,
                     '_eq_dict/_hash_dict are not plain ==/hash delegation')
+    # every way an equality helper answers for two values that are not
+    # None is one comparison of the whole (equally normalised) values - an
+    # additional path that compares piecewise (`all(... zip(a, b))`) is
+    # equal for values the matching hash helper hashes differently
+    from ..paths import return_paths as _rp
+    from ..cfg import GuardWalker as _GW
+    for f in (en, ei, ed):
+        ps_ = [p_ for p_ in f.params]
+        if len(ps_) != 2:
+            continue
+        for pth in _rp(f, max_paths=64, inline=False) or []:
+            atoms = [a for t0, p0 in pth.facts for a in _GW._atoms(t0, p0)]
+            if any(pol and norm(t) in (ps_[0] + ' is None',
+                                       ps_[1] + ' is None')
+                   for t, pol in atoms):
+                continue            # None handling
+            v = pth.resolve(pth.value) if pth.value is not None else None
+            r2.sites += 1
+            whole = isinstance(v, ast.Compare) and len(v.ops) == 1 and \
+                isinstance(v.ops[0], ast.Eq) and \
+                norm(v.left).replace(ps_[0], '\0') == \
+                norm(v.comparators[0]).replace(ps_[1], '\0')
+            if isinstance(v, ast.Constant) and v.value is False and any(
+                    (not pol) and norm(t) in (ps_[0] + ' is None',
+                                              ps_[1] + ' is None')
+                    for t, pol in atoms) and any(
+                    pol and ' is None' in norm(t) for t, pol in atoms):
+                whole = True
+            r2.ob(whole, 'utils:%s:path' % f.name,
+                  {'returns': norm(v, 80) if v is not None else None})
+            if not whole:
+                rep.finding(r2, f.qualname, norm(v, 70) if v is not None
+                            else 'None', 'partial-comparison', UTL,
+                            getattr(pth.ret_stmt, 'lineno', f.node.lineno),
+                            '%s answers %s for two values that are not '
+                            'None: that is not one comparison of the whole '
+                            'values, so values the hash helper hashes '
+                            'differently (lists of different length, ...) '
+                            'can compare equal' % (
+                                f.name, norm(v, 60) if v is not None
+                                else 'None'))
     # None handling in _eq_name/_eq_item: `if x1 is None: return x2 is None`
     for f in (en, ei):
         txt = [norm(s) for s in f.body]
